@@ -1,13 +1,13 @@
 package main
 
 import (
-	"runtime/debug"
-	"runtime/pprof"
 	"encoding/json"
 	"flag"
 	"fmt"
 	"os"
 	"path/filepath"
+	"runtime/debug"
+	"runtime/pprof"
 	"strings"
 	"time"
 
